@@ -2,7 +2,7 @@
     [cp c] = code point 0..0x10FFFF (a superset of the scalar values); [Rep h s cs] = in heap [h]
     the string record [s] (bytes object, offset, size) represents the code-point array [cs]. *)
 From ChibiV Require Import C12.Model C12.Spec C12.Utf8Proofs C12.Proofs C12.Proofs2 C12.Proofs3 C12.Proofs4
-  C12.PortModel C12.PortProofs C12.RangeModel C12.OutProofs.
+  C12.PortModel C12.PortProofs C12.RangeModel C12.OutProofs C12.RangeProofs C12.CmpProofs C12.LineProofs.
 Local Open Scope Z_scope.
 
 Theorem utf8_roundtrip : forall c, cp c -> forall rest,
@@ -200,3 +200,41 @@ Theorem write_string_range : forall h s cs r o, Rep h s cs -> oport_ok o ->
   else exists x, write_string_io h s r o = Err x.
 Proof. exact write_string_range_refines. Qed.
 Print Assumptions write_string_range.
+
+(** string-fill! with no range / (start) / (start end), for every old and new character width *)
+Theorem string_fill_range : forall h s cs c r, Rep h s cs -> cp c ->
+  let '(a, e) := range_bounds r (length cs) in
+  0 <= a <= e -> e <= Z.of_nat (length cs) ->
+  exists h' s', string_fill h s c r = Ok (h', s') /\
+    Rep h' s' (firstn (Z.to_nat a) cs ++ repeat c (Z.to_nat (e - a)) ++ skipn (Z.to_nat e) cs).
+Proof. exact string_fill_refines. Qed.
+Print Assumptions string_fill_range.
+
+(** string->utf8 with a range: the new bytevector starts with the encoding of characters start..end-1 *)
+Theorem string_to_utf8_with_range : forall h s cs r, Rep h s cs ->
+  let '(a, e) := range_bounds r (length cs) in
+  0 <= a <= e -> e <= Z.of_nat (length cs) ->
+  exists h' bv, string_to_utf8_range h s r = Ok (h', bv) /\
+    firstn (length (enc_all (sub (Z.to_nat a) (Z.to_nat e) cs))) (nth bv h' []) = enc_all (sub (Z.to_nat a) (Z.to_nat e) cs).
+Proof. exact string_to_utf8_range_refines. Qed.
+Print Assumptions string_to_utf8_with_range.
+
+(** read-line (limit n): [spec_line n cs] = (characters before the first LF / CR / CR LF, at most n; the rest) *)
+Theorem read_line_refines : forall n p cs, port_ok p -> Forall cp cs -> pending p = enc_all cs ->
+  exists p', read_line n p = (match cs with [] => None | _ => Some (fst (spec_line n cs)) end, p') /\
+             port_ok p' /\ pending p' = enc_all (snd (spec_line n cs)).
+Proof. exact read_line_spec. Qed.
+Print Assumptions read_line_refines.
+
+(** lexicographic order of UTF-8 bytes = lexicographic order of code points ([lex] compares lists of integers) *)
+Theorem utf8_byte_order_is_code_point_order : forall cs1, Forall cp cs1 -> forall cs2, Forall cp cs2 ->
+  lex (enc_all cs1) (enc_all cs2) = lex cs1 cs2.
+Proof. exact lex_enc_all. Qed.
+Print Assumptions utf8_byte_order_is_code_point_order.
+
+(** string-cmp (string=? string<? string>? string<=? string>=? compare it with 0) has the sign of the
+    lexicographic comparison of the code-point arrays; U+0000 is an ordinary character *)
+Theorem string_cmp_is_code_point_order : forall h s1 s2 cs1 cs2, Rep h s1 cs1 -> Rep h s2 cs2 ->
+  (string_cmp h s1 s2 ?= 0) = lex cs1 cs2.
+Proof. exact string_cmp_refines. Qed.
+Print Assumptions string_cmp_is_code_point_order.
